@@ -83,7 +83,7 @@ Classes(kind) ==
       [] kind = "bucketname" -> {"long", "dots", "upper", "unknown", "nul", "unicode", "encslash", "short",
                                  "noslash", "badescape"}
       [] kind = "key"      -> {"empty", "slashonly", "dots", "long", "unicode", "nul", "trailslash",
-                               "encslash", "badescape", "unknown", "dotonly"}
+                               "encslash", "badescape", "unknown", "dotonly", "repeat"}
       [] kind = "adminpath" -> {"unknown", "trailslash", "upper"}
       [] kind = "grant"    -> {"absent", "empty", "noeq", "unknownkey", "noquote", "unknownuser", "commas"}
       [] kind = "tagging"  -> {"absent", "empty", "noeq", "badescape", "longkey", "many", "dupkey"}
